@@ -586,3 +586,11 @@ func retVal(ret *ssa.Return, i int) ssa.Value {
 	}
 	return v
 }
+
+func allInstrs(fn *ssa.Function) []ssa.Instruction {
+	var res []ssa.Instruction
+	for _, b := range fn.Blocks {
+		res = append(res, b.Instrs...)
+	}
+	return res
+}
